@@ -250,6 +250,11 @@ class Ctx:
             lines.append("VIOLATION property=%s replay=%s" % (self.pid, path))
             lines.append("  key=%s clause=%s case=%s" % (f["key"], f["why"], json.dumps(f["case"])[:300]))
             rc = 1
+        def brief(v, limit=1500):
+            """evidence stays small: a sample that is large as JSON (a tree of 70 000 nodes) is recorded by its size and beginning"""
+            js = json.dumps(v)
+            return v if len(js) <= limit else {"abridged": True, "json_chars": len(js), "begins": js[:400]}
+        self.samples = [{k: brief(v) for k, v in smp.items()} for smp in self.samples]
         cov = {
             "states": max(self.states, 1), "transitions": max(self.transitions, 1),
             "traces_validated_against_impl": self.accepted,
